@@ -84,12 +84,17 @@ class C04(Spec):
     def gen(self, rng, tier):
         import os
         repo = os.environ.get("VERIF_REPO", "/repo")
+        # Elias gamma/delta bits and the zig-zag map are part of this property's statement
         return (genops.gen_maxima(os.path.join(repo, "README.md")) + genops.gen_scalar_all(rng, tier) +
-                genops.gen_sweeps(rng, tier))
+                genops.gen_sweeps(rng, tier) + genops.gen_arrays(rng, tier, codecs=["egamma", "edelta"]))
 
     def relevant_keys(self, op):
         if op.startswith("sweep"):
             return ["digest"]
+        if op.startswith(("egamma", "edelta")):
+            return ["len", "b"]
+        if op.startswith("zigzag"):
+            return None
         if op.startswith(("maxcell", "hdrmax")):
             return None
         return ["n", "b", "rb", "fb", "p32"]
